@@ -216,6 +216,45 @@ Definition write_file (pfx fu : bytes) (ef : footer_mode) (lay : layout) : wfile
   mkWFile (write_row_groups pfx fu ef 0 lay)
           (mkMod MFooter (make_aad pfx fu MFooter 0 0 0)).
 
+(** ** What the writer refuses (ordinals must fit their 16-bit field)
+    - writeDataPage returns an error once c.numPages > math.MaxInt16
+      (writer.go:2535-2540): at most 32768 data pages per encrypted chunk,
+      page ordinals 0..32767;
+    - writeRowGroup returns ErrTooManyRowGroups when len(w.rowGroups) ==
+      MaxRowGroups = math.MaxInt16 (writer.go:1503, limits.go:29): row group
+      ordinals 0..32766;
+    - a schema has at most MaxColumnIndex+1 = 65535 leaf columns (limits.go:13,
+      column.go:238): int16(i) keeps column ordinals apart as 16-bit patterns. *)
+Definition max_int16 : N := 32767.
+Definition max_row_groups : N := 32767.
+Definition max_column_index : N := 65534.
+
+(** The page loop again, with the check of writeDataPage. *)
+Fixpoint write_data_pages_chk (pfx fu : bytes) (rg_ord col_ord : Z) (num_pages n : nat) : option (list wmodule) :=
+  match n with
+  | O => Some []
+  | S n' =>
+      if (max_int16 <? N.of_nat num_pages)%N then None
+      else match write_data_pages_chk pfx fu rg_ord col_ord (S num_pages) n' with
+           | Some rest =>
+               Some (mkMod MDataHdr (make_aad pfx fu MDataHdr rg_ord col_ord (Z.of_nat num_pages))
+                     :: mkMod MDataBody (make_aad pfx fu MDataBody rg_ord col_ord (Z.of_nat num_pages))
+                     :: rest)
+           | None => None
+           end
+  end.
+
+Definition chunk_accepted (c : chunk) : bool :=
+  match write_data_pages_chk [] [] 0 0 0 (c_pages c) with Some _ => true | None => false end.
+
+Definition layout_accepted (lay : layout) : bool :=
+  (N.of_nat (length lay) <=? max_row_groups)%N &&
+  forallb (fun rg => (N.of_nat (length rg) <=? max_column_index + 1)%N && forallb chunk_accepted rg) lay.
+
+(** The writer as a whole: an error (no file) or the written file. *)
+Definition write_file_chk (pfx fu : bytes) (ef : footer_mode) (lay : layout) : option wfile :=
+  if layout_accepted lay then Some (write_file pfx fu ef lay) else None.
+
 Definition wfile_chunk (wf : wfile) (rg col : nat) : option wchunk :=
   match nth_error (wf_row_groups wf) rg with
   | Some cols => nth_error cols col
@@ -515,6 +554,8 @@ Definition oracle_aad (pfx fu : bytes) (code : Z) (rg col pg : Z) : option bytes
   | Some m => Some (make_aad pfx fu m rg col pg)
   | None => None
   end.
+
+Definition oracle_accepts (lay : layout) : bool := layout_accepted lay.
 
 (** All (position, type code, AAD) of a written file, in file order per chunk:
     used by the harness to decrypt every module of real files. *)
